@@ -376,6 +376,7 @@ NoLeak == LongLived <= 2 * NConns + 2 * SumOver(LenLink, Conns) + NConns
 \* at rest: ping + client reader + P + R per connection, plus what silence reconnects left behind
 AtRest == /\ AllDone /\ \A k \in Conns :
                /\ status[k] = "Connected" /\ Cur(k).fin = "open" /\ rcq[k] = 0 /\ clr[k].st = "idle"
+               /\ Cur(k).p = "run" /\ Cur(k).r = "run"
                /\ \A g \in Gens(k) : g # gen[k] => L(k, g).p \in {"dead", "stuck"} /\ L(k, g).r = "dead"
 NoLeakAtRest == AtRest => Goroutines = 4 * NConns + SumOver(Stuck, Conns)
 \* NOT an invariant of the code (see mc/LiteClient_MC_stuck.cfg): a silence reconnect can strand the packet goroutine
